@@ -28,6 +28,7 @@ const (
 type MatchEval struct {
 	Matcher string
 	Visible int  // bytes visible (len(MatchingBytes()) at entry)
+	BufLen  int  // total prefetch buffer length (including bytes already consumed by handlers)
 	First   byte // first visible byte (if any)
 	HasByte bool
 	Verdict int // 1 yes, 0 no, 2 need more, 3 error
@@ -70,8 +71,12 @@ func (m *SpecMatcher) Spec(visible []byte) int {
 }
 
 func (m *SpecMatcher) Match(cx *layer4.Connection) (bool, error) {
+	if !m.E.observed() {
+		return m.match(cx)
+	}
 	vis := cx.MatchingBytes()
-	ev := MatchEval{Matcher: m.ID, Visible: len(vis), At: m.E.S.Elapsed(), Conn: cx.Conn.RemoteAddr().String()}
+	bl, _, _ := layer4.VerifBufState(cx)
+	ev := MatchEval{BufLen: bl, Matcher: m.ID, Visible: len(vis), At: m.E.S.Elapsed(), Conn: cx.Conn.RemoteAddr().String()}
 	if len(vis) > 0 {
 		ev.First, ev.HasByte = vis[0], true
 	}
